@@ -406,6 +406,7 @@ def run(tier):
     c01.k2_k3_k6(prog, rep)
     c01.k7_regions(prog, rep)       # scratch regions handed to the HMAC helpers are large enough and disjoint (long keys)
     c01.k10_encap(prog, rep)
+    c01.k11_vect(prog, rep, only=("alg/sha256.c",))
     c01.ctx_typestate(prog, rep, [UNIT, "alg/sha256.c"])
     # a signing function that cannot allocate must fail, not return success with the signature buffer unwritten (rule shared with C14)
     from . import c14
